@@ -1,4 +1,6 @@
 import Zc.Proofs.QueryGen
+import Zc.GenFacts.FnHistory
+import Zc.GenFacts.FnDns
 /-! # C13 — queries carry known answers and are not needlessly repeated
 
 Model: `Zc.QueryGen` (`lean/Zc/Model/QueryGen.lean`): `generate_service_query`, the lookup's
@@ -59,9 +61,16 @@ theorem C13_browser_question (cache : List Rec) (h : History) (now : Int) (qu : 
     rw [← this]
     exact ⟨rfl, rfl, fun hn => wire_of_known lower cache ty 12 1 now _ (browser_answer_time_eq now) hn⟩
 
-/-- **Suppression, exactly.**  A browser question is omitted iff it is QM and this instance's history holds the
-same question, asked (or heard as responder) at most 999 ms ago, with a known-answer list of which every
-record is among the known answers we would send.  In particular QU questions are never suppressed. -/
+/-- **Suppression, exactly — w.r.t. the history *state*.**  A browser question is omitted iff it is QM and this instance's history
+holds the same question with a time at most 999 ms ago and a known-answer list of which every record is among the known answers we
+would send.  In particular QU questions are never suppressed.
+The history is a dict: it holds the **last** sighting of a question only.  The property's sentence speaks of *any* sighting within
+the previous 999 ms; the link between the state and "asked it, or heard it" over whole runs is `C13_run_suppress_iff`
+(`Props/C13Run.lean`), and the sentence itself is `C13.suppress_any_sighting_full` — false (finding D13b), proved outside the finding's
+class as `C13_suppress_any_sighting_partial`.
+Reading, named: "a known-answer list that contained nothing it does not know itself" is read as "nothing it would not list itself as a
+known answer *to this question*" (RFC 6762 §7.3: "would not also put in its own Known-Answer Section") — a heard multi-question query
+whose list holds records of another question is therefore not covered by our list for this question, although the cache holds them. -/
 theorem C13_suppress_iff (cache : List Rec) (h : History) (now : Int) (qu : Bool) (ty : String) :
     (askType lower cache h now qu ty).1 = none ↔
       qu = false ∧ ∃ e, h.get lower { name := ty, type := 12, class_ := 1, unique := qu } = some e ∧ now - e.time ≤ 999 ∧
@@ -292,8 +301,12 @@ theorem C13_regime_reached (l : Loop) (forced : Option Bool) (now : Int) (d : Na
     rcases hd with hd | hd <;> rw [hd] <;> simp
 
 /-- **Split over packets (partial).**  The bucket grouping puts every question (with its known answers) into exactly
-one outgoing message: the buckets' contents are a permutation of the input.  Missing: the TC bit and the packet
-boundaries inside one message are `DNSOutgoing.packets()` (C14's model); the harness checks them on the real packets. -/
+one outgoing message: the buckets' contents are a permutation of the input (true of any placement: the content of this theorem is only
+that nothing is lost or doubled by the grouping).  "Partial" here is not a finding but an open clause: the size estimates are inputs, and
+the TC bit and the packet boundaries inside one message are `DNSOutgoing.packets()` — C14's model, composed with the query messages of
+browsers **and lookups** in `C13_split_on_wire_partial` (`Props/C13Run.lean`; its hypotheses are C14's well-formedness conditions on the
+message).  The harness checks TC bits, sizes, completeness and TTLs on the real packets of browser queries (`svc`) and of lookup
+queries (`req`, `loop` with 60–300 cached address records). -/
 theorem C13_split_partial (m : Nat) (items : List (Nat × QOut)) :
     ((group m items).flatMap (·.items)).Perm items := by
   have := foldl_place_perm m items []
@@ -330,5 +343,67 @@ example :
 
 example : Loop.asks none (Loop.init 0 3000) [(0, 20), (220, 20), (440, 20), (1459, 120)] = [(0, true), (220, false), (440, false), (1459, false)] := by
   decide
+
+/-! ## Tie: the source of `_history.py`, translated statement by statement on every run
+
+`Zc.GenFn.History` is regenerated from the *bodies* of `QuestionHistory`'s methods (`tools/gen_fn.py`);
+`GenFacts/FnHistory.lean` proves that the hand-written `History` model above computes what those bodies compute.
+So the suppression clause holds of the translated source itself, and a change in a method body breaks a named
+lemma of `FnHistory` at stage P. -/
+section Tie
+open Zc.Py Zc.GenFn.History Zc.GenFacts.FnHistory
+
+/-- **Suppression, exactly — for the translated `QuestionHistory.suppresses`.**  On any dict `_history` the generated function
+answers `True` iff the dict holds the question with a time at most 999 ms back and a known-answer set of which every
+record is among the known answers offered now. -/
+theorem C13_suppress_iff_source (s : QuestionHistory) (q : Question) (now : Int) (known : List Rec) :
+    s.suppresses lower q now known = true ↔
+      ∃ t prev, PyDict.get? (Question.beq lower) s.history q = some (t, prev) ∧ now - t ≤ 999 ∧
+        ∀ r ∈ prev, ∃ k ∈ known, r.beq lower k = true := by
+  rw [suppresses_eq, suppresses_iff, get?_eq_get]
+  constructor
+  · rintro ⟨e, he, h1, h2⟩
+    exact ⟨e.time, e.known, by rw [he]; rfl, h1, h2⟩
+  · rintro ⟨t, prev, he, h1, h2⟩
+    cases hg : History.get lower (absH { history := s.history }) q with
+    | none => rw [hg] at he; cases he
+    | some e =>
+      rw [hg] at he
+      simp only [Option.map_some, Option.some.injEq, Prod.mk.injEq] at he
+      exact ⟨e, rfl, by rw [he.1]; exact h1, by rw [he.2]; exact h2⟩
+
+/-- **The model's history is the translated code's, along every sequence of calls** (`add_question_at_time`, `async_expire`,
+`clear` in any order, from the empty history): the translated code never raises (`async_expire`'s `del` finds its key), the
+model list has one entry per question, and every later `suppresses` decision of the model is the translated function's. -/
+theorem C13_history_is_source (ops : List HOp) :
+    ∃ s, runGen lower ops QuestionHistory.init = .ok s ∧ History.Keyed lower (runModel lower ops []) ∧
+      ∀ q now known, s.suppresses lower q now known = (runModel lower ops []).suppresses lower q now known := by
+  obtain ⟨s, h1, h2⟩ := run_sim lower ops (sim_init lower)
+  exact ⟨s, h1, h2.2.1, fun q now known => sim_suppresses lower h2 q now known⟩
+
+/-- **Known answers, with the translated `DNSRecord.is_stale`** (`GenFn/Dns.lean`, the whole method body): the known-answer
+list consists of exactly the cached records of that name, type and class on which the translated `is_stale(now)` answers `False`. -/
+theorem C13_known_exact_source (cache : List Rec) (name : String) (type cls : Nat) (now : Int) (r : Rec) :
+    r ∈ knownAnswers lower cache name type cls now ↔
+      r ∈ cache ∧ lower r.name = lower name ∧ r.type = type ∧ r.class_ = cls ∧ Zc.GenFn.Dns.DNSRecord.is_stale r now = false := by
+  rw [C13_known_exact, Zc.GenFacts.FnDns.is_stale_eq]
+  have : r.isStale now = false ↔ now < r.created + 500 * r.ttl := by
+    rw [← Bool.not_eq_true, Rec.isStale, is_stale_iff]; omega
+  rw [this]
+
+/-- … and each goes on the wire with the floor of what the translated `get_remaining_ttl(now)` returns -/
+theorem C13_known_ttl_source (now : Int) (r : Rec) (h : now < r.created + 500 * r.ttl) :
+    wireAnswer now r = some (r, (Zc.GenFn.Dns.DNSRecord.get_remaining_ttl r now).toNat) := by
+  rw [Zc.GenFacts.FnDns.get_remaining_ttl_eq, C13_known_ttl now r h, Rec.remainingTtl, remaining_ttl_eq _ _ _ (by omega)]
+
+/-- non-vacuity: a question recorded 999 ms ago with a covered known-answer set suppresses, at 1000 ms it does not -/
+example :
+    let q : Question := { name := "_x._tcp.local.", type := 12, class_ := 1, unique := false }
+    let r : Rec := { name := "_x._tcp.local.", type := 12, class_ := 1, unique := false, ttl := 4500, created := 0, rdata := .ptr "a._x._tcp.local." }
+    let s := QuestionHistory.add_question_at_time id QuestionHistory.init q 1000 [r]
+    s.suppresses id q 1999 [r] = true ∧ s.suppresses id q 2000 [r] = false ∧ s.suppresses id q 1999 [] = false := by
+  decide
+
+end Tie
 
 end Zc
